@@ -27,6 +27,9 @@ func (s siteInfo) String() string {
 type xl struct {
 	// acceptedOut collects the size-dependent sites accepted without a hazard (may be nil)
 	acceptedOut *[]acceptedSite
+	// derivedOut collects the index / slice sites accepted through an entry derived on this
+	// run (may be nil)
+	derivedOut *[]acceptedSite
 	// mayNil: may-return-nil summaries of the functions in scope (maynil.go), by FullName
 	mayNil map[string]map[int]bool
 	// ctorMaps: map-typed struct fields that every composite literal of their struct in the
@@ -74,6 +77,7 @@ type fn struct {
 	decl            *declInfo
 	body            *ast.BlockStmt
 	accepted        []acceptedSite
+	derivedSites    []acceptedSite
 }
 
 // declInfo: facts about one top-level function that its literals may rely on.
@@ -155,9 +159,12 @@ func (f *fn) newSite(n ast.Node, kind, desc string) int {
 
 // hz is a hazard at n unless the allow list covers (function, kind, desc).
 func (f *fn) hz(n ast.Node, kind, desc string) *Stmt {
-	if f.allow.covers(f.name, kind, desc) {
-		switch kind {
-		case "make", "index", "slice", "dstsize":
+	if ok, derived := f.allow.coversD(f.name, kind, desc); ok {
+		switch {
+		case derived:
+			// proved in range by the range analysis on this run: nothing to pin
+			f.derivedSites = append(f.derivedSites, acceptedSite{Fn: f.name, Kind: kind + "(derived)", Expr: desc})
+		case kind == "make" || kind == "index" || kind == "slice" || kind == "dstsize":
 			f.accepted = append(f.accepted, acceptedSite{Fn: f.name, Kind: kind + "(allow)", Expr: desc})
 		}
 		return skip()
@@ -569,7 +576,7 @@ func (f *fn) index(e *ast.IndexExpr) *Stmt {
 	xs := f.str(e.X)
 	if c, ok := f.intConst(e.Index); ok && c >= 0 && c <= 6 {
 		if xv := f.varOf(e.X); xv != nil && f.isLen[xv] {
-			if f.allow.covers(f.name, "index", f.str(e)) {
+			if f.allow.coversReviewed(f.name, "index", f.str(e)) {
 				return pre
 			}
 			return seq(pre, require(f.vars[xv], maskGE(c+1), f.newSite(e, "index", f.str(e))))
@@ -606,7 +613,7 @@ func (f *fn) slice(e *ast.SliceExpr) *Stmt {
 	}
 	if c, ok := f.intConst(e.Low); ok && c >= 0 && c <= 7 && okHigh && e.Max == nil {
 		if xv := f.varOf(e.X); xv != nil && f.isLen[xv] {
-			if f.allow.covers(f.name, "slice", f.str(e)) {
+			if f.allow.coversReviewed(f.name, "slice", f.str(e)) {
 				return pre
 			}
 			return seq(pre, require(f.vars[xv], maskGE(c), f.newSite(e, "slice", f.str(e))))
@@ -1568,6 +1575,9 @@ func (x *xl) translateFunc(name string, di *declInfo, ftype *ast.FuncType, recv 
 	s := seq(entry, f.stmts(body.List))
 	if x.acceptedOut != nil {
 		*x.acceptedOut = append(*x.acceptedOut, f.accepted...)
+	}
+	if x.derivedOut != nil {
+		*x.derivedOut = append(*x.derivedOut, f.derivedSites...)
 	}
 	return simplify(s), len(f.vars)
 }
